@@ -1,7 +1,7 @@
 #!/venv/bin/python
 """Run (a subset of) the repo's pytest suite and report baseline-stable tests that no longer pass.
 
-usage: tools/repo_tests.py [pytest args...]   (default: whole suite, -n 12)
+usage: [REPO=/tmp/worktree] [N=12] tools/repo_tests.py [pytest args...]   (default: whole suite)
 """
 import json, subprocess, sys, tempfile, xml.etree.ElementTree as ET, ast, os
 base = json.load(open("/root/.vp/BASELINE.json"))
@@ -11,7 +11,11 @@ with tempfile.TemporaryDirectory() as d:
     xml = os.path.join(d, "j.xml")
     cmd = ["/venv/bin/python", "-m", "pytest", "-q", "-p", "no:cacheprovider", "--timeout=900",
            "--continue-on-collection-errors", f"--junitxml={xml}", "-n", os.environ.get("N", "12")] + args
-    r = subprocess.run(cmd, cwd="/repo", capture_output=True, text=True)
+    repo = os.environ.get("REPO", "/repo")
+    env = dict(os.environ)
+    if repo != "/repo":
+        env["PYTHONPATH"] = repo + (":" + env["PYTHONPATH"] if env.get("PYTHONPATH") else "")
+    r = subprocess.run(cmd, cwd=repo, capture_output=True, text=True, env=env)
     print(r.stdout[-1500:])
     tree = ET.parse(xml)
     ran, bad = set(), []
